@@ -157,6 +157,20 @@ def items(repo):
             _PERSIST[key_] = op.iter_recurrence_str("R3/20200227T00Z/P2D")
         return out
     add("operiter/pending", pending_iter)
+    # the last week of a long week-year moved by whole years (the target
+    # year's number of weeks decides, in the calendar active now)
+
+    def week_plus_years(y, w, n):
+        try:
+            return str(TP(year=y, week_of_year=w, day_of_week=1) +
+                       Dur(years=n))
+        except ValueError as exc:
+            return "error:" + type(exc).__name__
+    for y, w, n in ((2015, 53, 5), (2019, 53, 1), (2020, 53, 1),
+                    (2009, 53, 11), (2019, 52, 1), (2015, 53, -11),
+                    (1997, 52, -1)):
+        add("weekyears/%d-W%d%+d" % (y, w, n),
+            lambda y=y, w=w, n=n: week_plus_years(y, w, n))
     add("rec/daily", lambda: rec("R5/2000-02-27T00Z/P1D", 5))
     add("rec/monthly", lambda: rec("R3/2001-01-30T00Z/P1M", 3))
     add("rec/reverse", lambda: rec("R/P1W/2004-01-05T00Z", 3))
